@@ -37,7 +37,7 @@ def jobs(tier):
     from .c01 import PRELUDE_SUBSET
     for e in CAT.build(4, "quick"):
         if e.name in PRELUDE_SUBSET:
-            for pre in (["false_region"], ["aborted_region"]):
+            for pre in (["false_region"], ["aborted_region"], ["self_first"]):
                 cfg = dict(n=4, r=2, bound=(1 << 64), track_all=True, guard=None, prelude=pre)
                 js.append(dict(name="%s/n4/after-%s" % (e.name, pre[0]), entry=e.name, backend="snarkjs", cfg=cfg, tier=tier, weight=2))
     return js
